@@ -19,6 +19,7 @@ import (
 	"fmt"
 	"net/http"
 	"net/url"
+	"strings"
 
 	"github.com/gobeam/stringy"
 	"k8s.io/apimachinery/pkg/api/errors"
@@ -165,9 +166,29 @@ func newRequestForProxy(location *url.URL, req *http.Request, _ string) (*http.R
 	// WithContext creates a shallow clone of the request with the same context.
 	newReq := req.WithContext(newCtx)
 	newReq.Header = utilnet.CloneHeader(req.Header)
+	removeImpersonationHeaders(newReq.Header)
 	newReq.URL = location
 
 	return newReq, cancel
+}
+
+// impersonationHeaderPrefix is shared by every header an upstream API server
+// may interpret as "act as" (Impersonate-User, -Group, -Extra-*, -Uid, ...).
+const impersonationHeaderPrefix = "Impersonate-"
+
+// removeImpersonationHeaders drops every client-supplied header of the
+// Impersonate-* family. Whatever the client was allowed to impersonate has
+// already been moved into the request context by the impersonation filter,
+// and the impersonating transport re-creates the headers from that context
+// (for both the proxy and the upgrade path). Members of the family the filter
+// does not know about (for example Impersonate-Uid) must not reach the
+// upstream next to the gateway's own credential.
+func removeImpersonationHeaders(header http.Header) {
+	for name := range header {
+		if strings.HasPrefix(http.CanonicalHeaderKey(name), impersonationHeaderPrefix) {
+			delete(header, name)
+		}
+	}
 }
 
 func normalizeErrToReason(err error) string {
